@@ -15,7 +15,7 @@ import (
 
 func init() {
 	vc.Register(&vc.Check{ID: "C03", Level: "model_checking", Run: run, Replay: replay, QuickSec: 150, ThoroSec: 1500,
-		Rule: "stateless exploration of the real NfcSession.DoAPDU + SecureMessaging against the independent chip-side SM: for 4 algorithms x 3 initial counters (0, mid, about to wrap) x histories of 3 exchanges over 8 command shapes x 12 response shapes, at EACH exchange the attacker's complete menu (every single-bit flip, every truncation, every single-byte deletion, every DO deletion/duplication/permutation, outer-SW replacement, replay of every earlier genuine response, parallel-session response at the same counter, unprotected data||SW and bare SW) is applied as the one deviation (D=1; D=2 all ordered pairs on the smallest shapes) and the history continues genuinely. Oracle per exchange: error, or exactly the (data,status) the chip protected for that exchange. distinct_nontrivial = distinct (alg, ssc class, position, command shape, response shape, mutation kind, outcome) tuples; states = executions (history x deviation), transitions = exchanges run",
+		Rule: "stateless exploration of the real NfcSession.DoAPDU + SecureMessaging against the independent chip-side SM: for 4 algorithms x 3 initial counters (0, mid, about to wrap) x histories of 3 exchanges over 8 command shapes x 12 response shapes, at EACH exchange the attacker's complete menu (every single-bit flip, every truncation, every single-byte deletion, every DO deletion/duplication/permutation, MACs of every shorter length incl. empty, every foreign / re-tagged (85<->87) data object injected at or substituted for every position, outer-SW replacement, replay of every earlier genuine response, parallel-session response at the same counter, unprotected data||SW and bare SW) is applied as the one deviation (D=1; D<=3 by explicit-state search with canonical state merging on small shapes) and the history continues genuinely. Oracle per exchange: error, or exactly the (data,status) the chip protected for that exchange. distinct_nontrivial = distinct (alg, ssc class, position, command shape, response shape, mutation kind, outcome) tuples; states = executions (history x deviation), transitions = exchanges run",
 		Assume: []string{"MAC forgery (2^-64) is not searched", "chip-side SM refcrypto.SM is anchored to ICAO 9303-11 App. D.4 by SelfTest"}})
 }
 
@@ -110,6 +110,8 @@ type runResult struct {
 	Genuine  [][]byte // genuine protected responses
 	Expected []obs    // what the chip protected per exchange
 	Got      []obs
+	LibSSC   [][]byte // terminal counter after each exchange (canonical state key for pruning)
+	ChipKey  string   // chip-side state after the run: session alive? counter
 	ChipErr  string // chip could not authenticate a genuine command (position recorded)
 	ChipErrAt int
 }
@@ -125,13 +127,21 @@ func runHistory(c cfg, hist []exch, devs []deviation, keysLabel string) *runResu
 	}
 	res := &runResult{ChipErrAt: -1}
 	block := c.Alg.Block()
+	chipAlive := true
 	w := &smdrv.Wire{}
 	w.F = func(n int, cmd []byte) []byte {
 		e := hist[n]
-		pc, err := smdrv.ChipUnwrap(chip, cmd)
+		var pc *refcrypto.PlainCmd
+		var err error
+		if chipAlive {
+			pc, err = smdrv.ChipUnwrap(chip, cmd)
+		} else {
+			err = fmt.Errorf("chip aborted the session earlier")
+		}
 		var genuine []byte
 		rd := pattern(e.R.dataLen(block), byte(n+1))
 		if err != nil {
+			chipAlive = false // 9303-11: a secure-messaging error aborts the session
 			if res.ChipErrAt < 0 {
 				res.ChipErr, res.ChipErrAt = err.Error(), n
 			}
@@ -171,7 +181,9 @@ func runHistory(c cfg, hist []exch, devs []deviation, keysLabel string) *runResu
 		default:
 			res.Got = append(res.Got, obs{Data: r.Data, Status: r.Status})
 		}
+		res.LibSSC = append(res.LibSSC, lib.SSC())
 	}
+	res.ChipKey = fmt.Sprintf("alive=%v/ssc=%x", chipAlive, chip.SSCBytes())
 	return res
 }
 
@@ -228,6 +240,9 @@ func menu(genuine []byte, earlier [][]byte, parallel []byte, plainData []byte, s
 	for i := 0; i < len(genuine); i++ {
 		add("delete-byte", append(bytes.Clone(genuine[:i]), genuine[i+1:]...))
 	}
+	if len(genuine) < 2 {
+		return out
+	}
 	body, swb := genuine[:len(genuine)-2], genuine[len(genuine)-2:]
 	dos := splitDOs(body)
 	join := func(idx []int) []byte {
@@ -272,7 +287,108 @@ func menu(genuine []byte, earlier [][]byte, parallel []byte, plainData []byte, s
 	add("bare-sw", []byte{byte(sw >> 8), byte(sw)})
 	add("bare-9000", []byte{0x90, 0x00})
 	// a syntactically valid SM response with a zero MAC
-	add("zero-mac", append(append(bytes.Clone(body[:len(body)-8]), make([]byte, 8)...), swb...))
+	if len(body) >= 10 {
+		add("zero-mac", append(append(bytes.Clone(body[:len(body)-8]), make([]byte, 8)...), swb...))
+	}
+	// DO'8E' of every shorter length (prefix of the genuine MAC, and zeros), incl. the empty MAC
+	if len(dos) >= 1 {
+		last := dos[len(dos)-1].raw
+		if last[0] == 0x8E && len(last) == 10 {
+			pre := body[:len(body)-10]
+			for l := 0; l < 8; l++ {
+				add("short-mac", append(append(append(bytes.Clone(pre), 0x8E, byte(l)), last[2:2+l]...), swb...))
+				add("short-mac", append(append(append(bytes.Clone(pre), 0x8E, byte(l)), make([]byte, l)...), swb...))
+			}
+			add("long-mac", append(append(append(bytes.Clone(pre), 0x8E, 9), append(bytes.Clone(last[2:]), 0)...), swb...))
+		}
+	}
+	// forged responses (content differs from the genuine one) closed with a MAC of every length 0..8 (zeros / genuine prefix)
+	{
+		var gmac []byte
+		if len(dos) >= 1 && dos[len(dos)-1].raw[0] == 0x8E {
+			gmac = dos[len(dos)-1].raw[2:]
+		}
+		for _, fsw := range []uint16{0x9000, 0x6A82} {
+			for _, withData := range []bool{false, true} {
+				var content []byte
+				if withData {
+					content = append(content, 0x87, 0x09, 0x01, 0x11, 0x22, 0x33, 0x44, 0x55, 0x66, 0x77, 0x88)
+				}
+				content = append(content, 0x99, 0x02, byte(fsw>>8), byte(fsw))
+				for l := 0; l <= 8; l++ {
+					for _, src := range [][]byte{make([]byte, 8), gmac} {
+						if len(src) < l {
+							continue
+						}
+						r := append(append(bytes.Clone(content), 0x8E, byte(l)), src[:l]...)
+						add("forged-content-with-short-or-guessed-mac", append(r, byte(fsw>>8), byte(fsw)))
+					}
+				}
+			}
+		}
+	}
+	// foreign data objects: every DO of every earlier genuine response and of the parallel session, as it is and
+	// re-tagged 85<->87, injected at every position and substituted for every genuine DO
+	var foreign [][]byte
+	collect := func(resp []byte) {
+		if len(resp) < 2 {
+			return
+		}
+		for _, d := range splitDOs(resp[:len(resp)-2]) {
+			foreign = append(foreign, d.raw)
+			if d.raw[0] == 0x87 || d.raw[0] == 0x85 {
+				r := bytes.Clone(d.raw)
+				r[0] ^= 0x02 // 85 <-> 87
+				foreign = append(foreign, r)
+			}
+		}
+	}
+	for _, e := range earlier {
+		collect(e)
+	}
+	if parallel != nil {
+		collect(parallel)
+	}
+	// the genuine data object re-tagged, and a fabricated one
+	for _, d := range dos {
+		if d.raw[0] == 0x87 || d.raw[0] == 0x85 {
+			r := bytes.Clone(d.raw)
+			r[0] ^= 0x02
+			foreign = append(foreign, r)
+		}
+	}
+	foreign = append(foreign, []byte{0x85, 0x09, 0x01, 1, 2, 3, 4, 5, 6, 7, 8}, []byte{0x87, 0x11, 0x01, 1, 2, 3, 4, 5, 6, 7, 8, 9, 10, 11, 12, 13, 14, 15, 16})
+	seenF := map[string]bool{}
+	for _, f := range foreign {
+		if seenF[string(f)] {
+			continue
+		}
+		seenF[string(f)] = true
+		for pos := 0; pos <= len(dos); pos++ {
+			var b2 []byte
+			for i, d := range dos {
+				if i == pos {
+					b2 = append(b2, f...)
+				}
+				b2 = append(b2, d.raw...)
+			}
+			if pos == len(dos) {
+				b2 = append(b2, f...)
+			}
+			add("inject-foreign-do", append(b2, swb...))
+		}
+		for rep := range dos {
+			var b2 []byte
+			for i, d := range dos {
+				if i == rep {
+					b2 = append(b2, f...)
+				} else {
+					b2 = append(b2, d.raw...)
+				}
+			}
+			add("substitute-foreign-do", append(b2, swb...))
+		}
+	}
 	return out
 }
 
@@ -315,11 +431,11 @@ func judge(r *runResult, devs []deviation) (string, string) {
 				}
 			}
 			// narrow signature of one root cause: an earlier exchange was answered with a bare status word
-			// (2 bytes), after which the terminal rolls its counter back, so the suppressed genuine
-			// response of that exchange authenticates as the answer to the next command
+			// (2 bytes), after which the terminal rolls its counter back, so material the chip produced for the
+			// suppressed exchange authenticates as the answer to the next command
 			for _, d := range devs {
-				if d.Pos < i && len(d.Bytes) == 2 && kind == "replay-earlier" {
-					kind += "/after-bare-status-response"
+				if d.Pos < i && len(d.Bytes) == 2 {
+					kind = "after-bare-status-response"
 				}
 			}
 			return "accepted-unauthentic/" + kind, fmt.Sprintf("exchange %d: caller received (data=%x,status=%04x) but the chip protected (err=%v,data=%x,status=%04x) for this exchange [deviation kind %s]", i, g.Data, g.Status, e.Err, e.Data, e.Status, kind)
@@ -416,27 +532,23 @@ func run(c *vc.Ctx) {
 		}
 	}
 d2:
-	// D = 2: all ordered pairs of deviations at exchanges 0 and 1 on the small shapes
-	sec2 := "D=2: all pairs of deviations at exchanges 0 and 1"
-	small := []exch{{cmdShapes[0], respShapes[0]}, {cmdShapes[1], respShapes[3]}}
+	// Explicit-state search with a canonical state key: after each exchange the future of the session is a function of
+	// (terminal counter, chip session alive?, chip counter) - keys are fixed, genuine responses are produced by the chip
+	// from its own state. Every deviation of the complete menu (plus "deliver genuine") is applied in every reachable
+	// state at every level; one representative path per state is kept. This covers ALL deviation sequences (D <= depth),
+	// not only pairs.
+	sec2 := "state search: every menu deviation in every reachable canonical state, depth 3"
+	small := []exch{{cmdShapes[0], respShapes[0]}, {cmdShapes[1], respShapes[3]}, {cmdShapes[5], respShapes[9]}}
 	if c.Thorough() {
-		small = append(small, exch{cmdShapes[2], respShapes[1]}, exch{cmdShapes[5], respShapes[6]})
+		small = append(small, exch{cmdShapes[2], respShapes[1]}, exch{cmdShapes[6], respShapes[6]}, exch{cmdShapes[7], respShapes[5]})
 	}
-	c.SecBound(sec2, fmt.Sprintf("4 algs x SSC classes {0,wrap} x %d x %d shape pairs x menu(0) x menu(1)", len(small), len(small)))
+	c.SecBound(sec2, fmt.Sprintf("4 algs x SSC classes {0,wrap} x %d^3 exchange-shape triples; BFS over canonical states (terminal SSC, chip alive, chip SSC), complete menu + genuine in every state at each of 3 levels", len(small)))
+	maxStates := 0
 	for _, alg := range smdrv.Algs {
 		for _, ssc := range []int{0, 2} {
 			for _, e0 := range small {
 				for _, e1 := range small {
-					cf := cfg{alg, ssc}
-					hist := []exch{e0, e1, filler[2]}
-					gen := runHistory(cf, hist, nil, "main")
-					if gen.ChipErrAt >= 0 {
-						continue
-					}
-					par := runHistory(cf, hist, nil, "parallel")
-					block := alg.Block()
-					m0 := menu(gen.Genuine[0], nil, par.Genuine[0], pattern(e0.R.dataLen(block), 1), e0.R.SW)
-					for _, d0 := range m0 {
+					for _, e2 := range small {
 						if !c.Mine() {
 							continue
 						}
@@ -444,29 +556,62 @@ d2:
 							c.SecNotExhaustive(sec2, "deadline")
 							return
 						}
-						d0.Pos = 0
-						// the genuine response at 1 depends on what happened at 0 only through the chip counter, which is deviation independent
-						m1 := menu(gen.Genuine[1], gen.Genuine[:1], par.Genuine[1], pattern(e1.R.dataLen(block), 2), e1.R.SW)
-						for _, d1 := range m1 {
-							d1.Pos = 1
-							devs := []deviation{d0, d1}
-							r := runHistory(cf, hist, devs, "main")
-							c.AddStates(1)
-							c.AddTrans(3)
-							c.AddTraces(1)
-							key, what := judge(r, devs)
-							if key != "" {
-								c.Violation(sec2, key, what, recOf(cf, hist, devs), func() bool { k, _ := judge(runHistory(cf, hist, devs, "main"), devs); return k != "" })
-								c.Outcome(sec2, "VIOLATION")
-							} else {
-								c.Outcome(sec2, "error-or-identical")
+						cf := cfg{alg, ssc}
+						hist := []exch{e0, e1, e2}
+						block := alg.Block()
+						par := runHistory(cf, hist, nil, "parallel")
+						type node struct{ devs []deviation }
+						frontier := []node{{}}
+						total := 1
+						for pos := 0; pos < 3; pos++ {
+							next := map[string]node{}
+							var order []string
+							for _, nd := range frontier {
+								// the genuine response at pos along this path
+								g := runHistory(cf, hist[:pos+1], nd.devs, "main")
+								m := menu(g.Genuine[pos], g.Genuine[:pos], par.Genuine[pos], pattern(hist[pos].R.dataLen(block), byte(pos+1)), hist[pos].R.SW)
+								m = append(m, deviation{Kind: "genuine", Bytes: g.Genuine[pos]})
+								for _, d := range m {
+									d.Pos = pos
+									devs := append(append([]deviation{}, nd.devs...), d)
+									r := g
+									if d.Kind != "genuine" {
+										r = runHistory(cf, hist[:pos+1], devs, "main")
+									}
+									c.AddTrans(int64(pos + 1))
+									c.AddTraces(1)
+									key, what := judge(r, devs)
+									if key != "" {
+										dv := devs
+										c.Violation(sec2, key, what, recOf(cf, hist[:pos+1], dv), func() bool { k, _ := judge(runHistory(cf, hist[:pos+1], dv, "main"), dv); return k != "" })
+										c.Outcome(sec2, "VIOLATION")
+									} else {
+										c.Outcome(sec2, "error-or-identical")
+									}
+									sk := fmt.Sprintf("%x/%s", r.LibSSC[pos], r.ChipKey)
+									if _, ok := next[sk]; !ok {
+										next[sk] = node{devs}
+										order = append(order, sk)
+									}
+								}
 							}
+							frontier = frontier[:0]
+							for _, k := range order {
+								frontier = append(frontier, next[k])
+							}
+							total += len(order)
 						}
+						c.AddStates(int64(total))
+						if total > maxStates {
+							maxStates = total
+						}
+						c.Distinct(fmt.Sprintf("bfs/%d/%d/%v/%v/%v/states=%d", alg, ssc, e0, e1, e2, total))
 					}
 				}
 			}
 		}
 	}
+	c.Extra("max_canonical_states_per_history_seen_by_worker0", maxStates)
 }
 
 func replay(c *vc.Ctx, raw json.RawMessage) string {
